@@ -68,10 +68,18 @@ def compare(ctx, case, before, after, refattrs, path=''):
         for n in before['pictures']:
             if before['pictures'][n] != after['pictures'][n]:
                 ctx.violation('picture-differs', dict(case, where=path, name=n), str(after['pictures'][n])[:80], str(before['pictures'][n])[:80], {})
-    if len(before['objects']) != len(after['objects']):
-        ctx.violation('objects-differ', dict(case, where=path), len(after['objects']), len(before['objects']), {})
+    if path: return
+    # the embedded sub-documents, each under the folder its reference names: load() attaches the objects of an object to the top document
+    # (under their full folder), so the two trees are compared as what they stand for - the set of folders and what each holds
+    def flat(s):
+        out = []
+        for f, o in s['objects']: out += [(f, dict(o, objects=[]))] + flat(o)
+        return sorted(out, key=lambda x: str(x[0]))
+    fb, fa = flat(before), flat(after)
+    if [f for f, _ in fb] != [f for f, _ in fa]:
+        ctx.violation('objects-differ', dict(case, where=path), [f for f, _ in fa], [f for f, _ in fb], {})
     else:
-        for (f1, o1), (f2, o2) in zip(before['objects'], after['objects']):
+        for (f1, o1), (f2, o2) in zip(fb, fa):
             compare(ctx, case, o1, o2, refattrs, path + (f1 or '?'))
 
 def _first_diff(a, b, path='/'):
@@ -139,6 +147,18 @@ def directed(i):
     from odf.opendocument import OpenDocumentText
     from odf import style, text, meta, dc
     doc = OpenDocumentText()
+    if i == -6:
+        # objects two levels deep, each attached when its parent has its folder: a spreadsheet holding a chart, next to a second object
+        from odf.opendocument import OpenDocumentSpreadsheet, OpenDocumentChart
+        from odf import draw, table, chart
+        sheet = OpenDocumentSpreadsheet(); t = table.Table(name='inner'); sheet.spreadsheet.addElement(t)
+        ch = OpenDocumentChart(); ch.chart.addElement(chart.Chart(attributes={'class': 'chart:bar'}))
+        other = OpenDocumentChart(); other.chart.addElement(chart.Chart(attributes={'class': 'chart:line'}))
+        for o in (sheet, other):
+            p = text.P(); doc.text.addElement(p); fr = draw.Frame(); p.addElement(fr); fr.addElement(draw.Object(href=doc.addObject(o)))
+        sh = table.Shapes(); t.addElement(sh); fr = draw.Frame(); sh.addElement(fr); fr.addElement(draw.Object(href=sheet.addObject(ch)))
+        tr = table.TableRow(); t.addElement(tr); tc = table.TableCell(); tr.addElement(tc); tc.addElement(text.P(text='cell'))
+        return doc
     if i == -5:
         # an object written inline: draw:object holds a whole office:document, with sections of its own (the schema's alternative to a folder)
         from odf import draw, office, chart
@@ -182,7 +202,7 @@ def run(ctx):
     refattrs = set(tuple(x) for x in twin['GenStyleRefs.v']['schema']) | {(STY, 'list-style-name')}
     n = 30 if ctx.quick else 800
     g = schemagen.Gen(ctx.rng, twin['GenGrammar.v'])
-    for i in range(-5, n):
+    for i in range(-6, n):
         doc = directed(i) if i < 0 else g.document()
         before = snapshot(doc)
         case = {'i': i, 'seed': ctx.seed, 'mime': doc.mimetype, 'elements': sum(X.tree_size(before['sections'][a]) for a in SECTS)}
